@@ -100,7 +100,7 @@ package avro
 //@   let i0 := r.i, n := len(r.buf)
 //@   requires wfRB(r) && p != nil && rawalloc(p, sizeof(T))
 //@   ensures [C17,C06,C04] i0 <= r.i && r.i <= n
-//@   ensures [C17,C03,C04] err == nil ==> uvOK(r.buf, i0, r.i)
+//@   ensures [C17,C03,C04] err == nil ==> uvOK(r.buf, i0, r.i) && r.i == vend(r.buf, i0)
 //@   ensures [C17,C03] err == nil ==> fits(unzz(pv(r.buf, i0, r.i - i0)), sizeof(T)) && memint(p, sizeof(T)) == unzz(pv(r.buf, i0, r.i - i0))
 //@   ensures [C17,C03] err != nil ==> uvBad(r.buf, i0, r.i, n) || (uvOK(r.buf, i0, r.i) && !fits(unzz(pv(r.buf, i0, r.i - i0)), sizeof(T)))
 //@   modifies r.i, M[p, sizeof(T)]
@@ -110,7 +110,7 @@ package avro
 //@   let i0 := r.i, n := len(r.buf)
 //@   requires wfRB(r)
 //@   ensures [C04,C06] i0 <= r.i && r.i <= n
-//@   ensures [C04] err == nil ==> uvOK(r.buf, i0, r.i)
+//@   ensures [C04] err == nil ==> uvOK(r.buf, i0, r.i) && r.i == vend(r.buf, i0)
 //@   ensures [C04] err != nil ==> uvBad(r.buf, i0, r.i, n)
 //@   modifies r.i
 
